@@ -266,7 +266,7 @@ CHECKS = {
                 "Distinct = hash of the emitted files.",
         "required_buckets": ["training_succeeded", "with_user_lexicon", "user_row_with_trained_parameters", "user_row_copied_unchanged",
                              "non_zero_weights", "all_zero_weight_model", "costs_of_both_signs", "non_square_matrix", "emitted_files_compile",
-                             "exported_once_before_user_lexicon"],
+                             "exported_once_before_user_lexicon", "model_stored_and_read_back_first", "user_row_equals_identical_seed_row"],
         "assumptions": ["the merge of feature weights into connection classes is rucrf's and is trusted here (cross-examined by C16 and C18)"],
     },
     "C15": {
